@@ -63,6 +63,7 @@ type c03StreamOpt struct {
 	endMarker  string
 	endDb      int
 	avoidFirst int // do not make this database the first one selected (-1: no restriction)
+	inline     bool // some commands travel as inline command lines
 }
 
 // a source command stream a master can emit (plus, optionally, malformed commands)
@@ -73,6 +74,9 @@ func c03GenStream(g *gen, o c03StreamOpt) []c03SrcCmd {
 		c.name = c03RandCase(g, c.name)
 		if g.r.Intn(6) == 0 {
 			c.nl = 1 + g.r.Intn(2)
+		}
+		if o.inline && g.r.Intn(5) == 0 && c03InlineSafe(c) {
+			c.nl = 10 + g.r.Intn(2) // an inline command line
 		}
 		out = append(out, c)
 	}
@@ -312,7 +316,7 @@ func c03GenPipeCases(g *gen, n int, resume func() bool, resumed bool) {
 		if i%4 == 2 {
 			end = "!" + end
 		}
-		cmds := c03GenStream(g, c03StreamOpt{n: 3 + g.r.Intn(22), dbs: pc.dbs, keyFilter: pc.keyF, endMarker: end, endDb: pc.endDb, avoidFirst: avoid})
+		cmds := c03GenStream(g, c03StreamOpt{n: 3 + g.r.Intn(22), dbs: pc.dbs, keyFilter: pc.keyF, endMarker: end, endDb: pc.endDb, avoidFirst: avoid, inline: i%2 == 1})
 		argless := make([]bool, len(cmds))
 		for k, c := range cmds {
 			argless[k] = len(c.args) == 0 && end[0] == '!' && !strings.EqualFold(c.name, "exec") && !strings.EqualFold(c.name, "multi")
@@ -380,7 +384,7 @@ func c03GenParseCases(g *gen, n int) {
 		if i%20 == 0 {
 			ln = g.r.Intn(4)
 		}
-		cmds := c03GenStream(g, c03StreamOpt{n: ln, dbs: dbs, keyFilter: keyF, malformed: i%7 == 0, avoidFirst: -1})
+		cmds := c03GenStream(g, c03StreamOpt{n: ln, dbs: dbs, keyFilter: keyF, malformed: i%7 == 0, avoidFirst: -1, inline: i%3 == 1})
 		startDb := []int{0, 0, 0, 1, 2, 5}[g.r.Intn(6)]
 		base := []int{0, 0, 1000, 987654321}[g.r.Intn(4)]
 		g.emit("parse %s %d %d %s", pcfg, startDb, base, c03FmtCmds(cmds))
